@@ -86,7 +86,11 @@ def run(chk):
     chk.assumptions = [
         "'diagonally dominant' for the must-succeed clause means disjoint "
         "Gershgorin discs (off-diagonal row sums <= 0.24 x the smallest "
-        "diagonal gap) and the default iteration limit (50) or more",
+        "diagonal gap), the default iteration limit (50) or more and a "
+        "search-space limit that is not below the solver's default of 5 x "
+        "neigen; with tighter user limits non-convergence is counted, not "
+        "judged (correction of the oracle after the soak: one of 6000 solves "
+        "stagnated at 1.1e-9 against tol 1e-9 with a limit below 2 x neigen)",
         "an exception from solve() counts as 'not reported as success'; it is "
         "a violation only for the must-succeed family",
         "HAM mode: only the values are judged (sorted), with the eigenvector "
